@@ -26,6 +26,9 @@ def cases(tier, seed):
     for i in range(n):
         out.append({"name": "poll.model/%d" % i, "kind": "gen", "idx": i})
     out.append({"name": "poll.cancel-table", "kind": "ctable"})
+    for what in ("notify", "complete_other", "notify+complete_other"):
+        for answer in (True, False):
+            out.append({"name": "poll.slow-cancel-fn/%s/%s" % (what, answer), "kind": "slowcfn", "what": what, "answer": answer})
     for trig in ("complete", "notify", "timer"):
         for second in ("complete", "cancel_same", "fail"):
             out.append({"name": "poll.sweep-raise/worker/%s|%s" % (trig, second), "kind": "sweep", "victim": "worker", "trigger": trig,
@@ -75,6 +78,7 @@ class PW(object):
         self.sightings = {}
         self.poll_exc = {}
         self.consulted_done = []
+        self.cancel_hook = None  # what the user's cancel function does besides answering (e.g. a slow remote call)
         self.first_yield = {}
         self.poll_fn = Recorded("poll", self._poll)
         self.cancel_fn = Recorded("cancel_fn", self._cancel)
@@ -127,6 +131,8 @@ class PW(object):
         if done:
             self.consulted_done.append(i)
         how = self.cancel_script.get(i, True)
+        if self.cancel_hook is not None:
+            self.cancel_hook(i)
         if how == "raise":
             raise UserErrorB("cancel_fn %s" % (i,))
         return how
@@ -539,6 +545,54 @@ class NPScenario(PScenario):
             res.key("nested", self.case["name"], info.get("site"))
 
 
+def run_slowcfn(case, res):
+    """The cancel function takes its time (3 virtual seconds); meanwhile a notify() arrives / another future becomes
+    eligible: the poll thread serves them at that time, it does not wait for the cancel function to return."""
+    begin("vt")
+    ctx = Ctx()
+    try:
+        w = PW(ctx, 20.0, [[None, None, None, "v"], [None, "v"], ["v"]], {0: case["answer"], 1: True, 2: True})
+        for _ in range(3):
+            w.submit()
+        w.complete(0)
+        w.complete(1)
+        instr.advance(0.25)
+
+        def hook(i):
+            acts = []
+            if "notify" in case["what"]:
+                w.notify()
+            if "complete_other" in case["what"]:
+                # (from another thread, as a delegate's worker would)
+                acts.append(ctx.actor("D", w.complete, 2).go())
+            # real-time wait until the poll thread has reacted (or shows that it cannot), then let virtual time pass
+            try:
+                instr.wait_for(instr.quiescent_but_me, timeout=5.0)
+            except Inconclusive:
+                pass
+            instr.burn(3.0)
+        w.cancel_hook = hook
+        a = ctx.actor("C", w.cancel, 0).go()
+        if drive([a] + [x for x in ctx.actors if x is not a]) != "ok" and not LM.deadlocks:
+            raise Inconclusive("cancel did not return: " + instr.describe_threads())
+        w.cancel_hook = None
+        instr.advance(0.25)
+        for rec in w.futs:
+            if rec["delegate"] is None:
+                w.complete(rec["i"])
+        instr.advance(60.0)
+        res.execs += 1
+        check_common(res)
+        if len(w.cancel_fn.calls) != 1:
+            res.inconclusive.append("%s: cancel function called %d times" % (case["name"], len(w.cancel_fn.calls)))
+        w.judge(res, case["name"])
+        res.key("slowcfn", case["what"], case["answer"])
+        res.sample({"cancel_fn_does": case["what"], "cancel_fn_answers": case["answer"],
+                    "poll_calls": [(e[4]["idx"], e[4]["ids"], round(e[1] - w.t0, 3)) for e in LOG.select("poll.shown")][:10]}, limit=1)
+    finally:
+        end(ctx)
+
+
 def run_ctable(case, res):
     """cancel() at each stage (delegate pending / polling / resolved) x cancel function behaviour."""
     for behaviour in (True, False, "raise"):
@@ -581,6 +635,8 @@ def run_ctable(case, res):
 def run_case(case, res):
     if case["kind"] == "ctable":
         return run_ctable(case, res)
+    if case["kind"] == "slowcfn":
+        return run_slowcfn(case, res)
     if case["kind"] == "nested":
         rng = random.Random("c08n/%s/%s" % (case["seed"], case["name"]))
         SweepNested(NPScenario(case), res, "vt", case["name"]).run(case["cap_a"], case["cap_b"], rng, per_site=1, a_slice=case["slice"])
